@@ -10,4 +10,16 @@ from ngosa.model import Program
 prg = Program()
 ref = {q: [list(t) for t in alpha.fingerprints(f.node)] for q, f in sorted(prg.funcs.items())}
 json.dump(ref, open(alpha.REF_FILE, "w"), indent=0, sort_keys=True)
+import ast
+callers = {}
+for q, f in sorted(prg.funcs.items()):
+    for node in ast.walk(f.node):
+        if isinstance(node, ast.Call):
+            res = prg.resolve_callee(f, node.func)
+            if res in prg.funcs and res != q:
+                # the innermost enclosing function only
+                callers.setdefault(res, set()).add(q)
+inner = {c: sorted(x for x in qs if not any(y != x and y.startswith(x + ".<locals>.") for y in qs)) for c, qs in callers.items()}
+json.dump(inner, open(os.path.join(os.path.dirname(alpha.REF_FILE), "callers_ref.json"), "w"), indent=0, sort_keys=True)
+print(len(inner), "called functions")
 print(len(ref), "functions,", sum(len(v) for v in ref.values()), "variables")
